@@ -51,6 +51,7 @@ func (r *Runner) BeginTxn(ctx context.Context, label string, p *Program, spec Tx
 	lt := &LiveTxn{Label: label, T: t, Spec: spec, Stores: map[int]btree.BtreeInterface[int, string]{}}
 	for _, s := range spec.New {
 		o := p.Stores[s]
+		r.Rec.Add(Ev{Ev: "NewStoreBegin", T: label, S: o.Name, Unique: o.Unique})
 		b, err := sopenv.NewBtree[int, string](ctx, t, o)
 		if err != nil && errors.Is(err, decor.ErrInjected) {
 			r.Rec.Add(Ev{Ev: "OpError", T: label, S: o.Name, Op: "NewStore", Note: errs(err)})
